@@ -455,6 +455,12 @@ impl Drop for Ctx {
         if REAL_DROPS.with(|c| c.get()) && UNWINDING.with(|u| u.borrow()[self.tid as usize]) {
             // the thread panicked: everything it owns is dropped by the unwinding
             REAL_DROP_UNWINDS.with(|c| c.set(c.get() + 1));
+            // ... and a destructor of its own reads and updates an atomic (a drop guard that
+            // keeps a counter, say)
+            if let Some(a) = self.env.atomics.first() {
+                let _ = a.load(std::sync::atomic::Ordering::Relaxed);
+                let _ = a.fetch_add(0, std::sync::atomic::Ordering::Relaxed);
+            }
             return;
         }
         for hs in self.arcs.drain(..) {
